@@ -303,6 +303,20 @@ def extra(res, tier, seed, workdir):
             fault_enumeration="sections fault_geoid, fault_magnetic, fault_gravity, fault_readcoeffs, fault_nn_bin, fault_nn_text, geoid_ftruncate, "
                               "parser_directed, ctor_matrix (finite lists run completely in both builds); counts in coverage.classes",
             exploration="nan_propagation, special_values, special_multi, throw_outputs, ctor_random, parser_grammar, libFuzzer")
+        # (f) sanitizer verdicts of the other properties' ASan/UBSan runs (informational: those keys are judged by their own checks)
+        other = {}
+        for f in sorted(glob.glob(os.path.join(VERIF, "evidence", "C*.json"))):
+            pid = os.path.basename(f)[:-5]
+            if pid == "C13":
+                continue
+            try:
+                ev = json.load(open(f))
+            except Exception:
+                continue
+            ks = [k for k in ev.get("coverage", {}).get("violation_keys", {}) if k.split(":")[0] in ("asan", "ubsan", "tsan", "terminate", "crash")]
+            other[pid] = dict(tier=ev.get("tier"), verdict=ev.get("verdict"), sanitizer_keys=ks,
+                              asan_runs=[r["run"] for r in ev.get("coverage", {}).get("runs", []) if r.get("flavour") == "asan"])
+        res.extra["sanitizer_verdicts_of_other_properties"] = other
         driver.log("[C13] libFuzzer: %d executions over %d targets in %.0fs" % (total, len(fz), time.time() - t0))
         if tier == "thorough":
             _valgrind(res, seed, root, os.path.join(root, "corpus"))
